@@ -5,6 +5,7 @@ import EaselModel.Msa.LemmasTags
 import EaselModel.Msa.LemmasWuss
 import EaselModel.Msa.LemmasRbb
 import EaselModel.Msa.LemmasDyck
+import EaselModel.Msa.LemmasFrag
 /-! # C15 — alignment transformations keep the alignment well formed and the residues intact; WUSS round trips
 
 Property theorems only; proofs are glue on the lemmas of `EaselModel/Msa/Lemmas*.lean`.
@@ -250,6 +251,41 @@ theorem generated_complement_involutive :
     (∃ c, Gen.rnaAbc.complement = some c ∧ Gen.rnaAbc.complInvolutive c) ∧
     (∃ c, Gen.dnaAbc.complement = some c ∧ Gen.dnaAbc.complInvolutive c) :=
   ⟨rna_complInvolutive, dna_complInvolutive⟩
+
+/-! ## FlushLeftInserts, MarkFragments -/
+
+/-- `esl_msa_FlushLeftInserts` rewrites every row to `flushRow`; on a well-formed alignment each row keeps its length,
+    spells the same residues in the same order (only gaps moved), and every consensus (RF non-gap) column keeps its
+    own cell; nothing but the rows changes -/
+theorem flushLeftInserts_spec (m : Msa) (a : Abc) (rf : Bytes) (wf : m.WF) (hrf : m.rf = some rf) (habc : m.abc = some a)
+    (hd : m.isDigital = true) (hg : a.xIsGap a.xGap = true) :
+    flushLeftInserts m = { msa := { m with rows := m.rows.map (flushRow a rf m.alen) }, st := .ok } ∧
+    ∀ r ∈ m.rows,
+      (flushRow a rf m.alen r).length = m.alen ∧
+      (flushRow a rf m.alen r).filter (fun x => !a.xIsGap x) = r.filter (fun x => !a.xIsGap x) ∧
+      (∀ i, i < m.alen → a.cIsGap (rf.getD i 0) = false → (flushRow a rf m.alen r).getD i 0 = r.getD i 0) := by
+  refine ⟨by simp [flushLeftInserts, hrf, habc], fun r hr => ?_⟩
+  exact flushRow_spec a hg rf r m.alen (wf.rf_ok rf hrf).1 (wf.rows_ok r hr).1
+
+/-- `esl_msa_MarkFragments_old` on one row (`maskEnds`): same length, same residues in the same order; every cell is
+    an old cell or the missing-data symbol (leading / trailing non-residues only) -/
+theorem markFragmentsOld_row_spec (isRes : UInt8 → Bool) (miss : UInt8) (hm : isRes miss = false) (r : Bytes) :
+    (maskEnds isRes miss r).length = r.length ∧ (maskEnds isRes miss r).filter isRes = r.filter isRes ∧
+    ∀ c ∈ maskEnds isRes miss r, c ∈ r ∨ c = miss :=
+  maskEnds_spec isRes miss hm r
+
+/-- ... and the operation touches nothing but the rows it flags (`fragSyms`: residue test and missing symbol of the mode) -/
+theorem markFragmentsOld_rows (m : Msa) (isFrag : Nat → Bool) :
+    markFragmentsOld m isFrag =
+      { m with rows := m.rows.map fun r => if isFrag (rawLen m r) then maskEnds (fragSyms m).1 (fragSyms m).2 r else r } :=
+  rfl
+
+/-- in the three generated alphabets the gap code is a gap and the missing-data code is not a residue -/
+theorem generated_gap_missing_codes :
+    (Gen.rnaAbc.xIsGap Gen.rnaAbc.xGap = true ∧ Gen.rnaAbc.xIsResidue Gen.rnaAbc.xMissing = false) ∧
+    (Gen.dnaAbc.xIsGap Gen.dnaAbc.xGap = true ∧ Gen.dnaAbc.xIsResidue Gen.dnaAbc.xMissing = false) ∧
+    (Gen.aminoAbc.xIsGap Gen.aminoAbc.xGap = true ∧ Gen.aminoAbc.xIsResidue Gen.aminoAbc.xMissing = false) ∧
+    isAlnum 0x7e = false := by decide
 
 /-! ## WUSS -/
 
